@@ -92,6 +92,8 @@ class Rec:
         self.commits = []  # [{"files":[basenames], "dump":..., "n":int}]
         self.protected = {}  # abs path -> sha256 (committed containers + manifests)
         self.merged_from = None  # {"src": idx, "src_ncommitted": n, "base_sha": sha} for merge targets
+        self.inflight = None  # set while a commit is being performed
+        self.truncating = False  # set while the record is being replaced (mode 'w')
         self.exts = None  # expected manifest_exts (mf)
         self.gen = 0  # incremented when the record is re-created ('w')
 
@@ -142,6 +144,7 @@ class World:
         self._install_find_files_seam()
         self.containers_seen = 0
         self.old_touch = 0
+        self.call_events = []
 
     # -------------------------------------------------------------- seams
 
@@ -329,6 +332,9 @@ class World:
                     raise Violation("C02", "committed-bytes-changed", f"{os.path.basename(p)} changed during {opdesc}", shape="hash")
         if self.monitor:
             for ev in self.sh.drain():
+                if ev[0] == "CALL":
+                    self.call_events.append(ev)
+                    continue
                 if ev[0] == "MODIFY":
                     raise Violation("C02", "modifying-write", f"{ev[1]} on committed {os.path.basename(ev[2])} (off {ev[3]} len {ev[4]}) during {opdesc}", shape=ev[1])
                 if ev[0] == "REWRITE":
@@ -376,17 +382,81 @@ class World:
 
     # -------------------------------------------------------------- life cycle ops
 
-    def record_commit(self, r):
+    def pre_commit(self, r):
+        """Before the SUT is asked to commit: remember the state that is in flight."""
+        import h5py
+
+        p = self.ref_path(r)
+        r.ref.flush()
+        r.ref.close()
+        shutil.copyfile(p, p + ".pending")
+        r.ref = h5py.File(p, "r+")
+        dump, _ = V.dump_tree(r.ref)
+        r.inflight = {"dump": dump, "files": [c["file"] for c in r.disk]}
+        self.save_carry()
+
+    def abort_commit(self, r):
+        r.inflight = None
+        self.save_carry()
+
+    def post_commit(self, r, opened=True):
         """Book-keeping after the SUT acknowledged a commit of the newest container."""
         r.disk[-1]["committed"] = True
-        self.snapshot_ref(r)
-        dump, _ = V.dump_tree(r.ref)
-        r.commits.append({"files": [c["file"] for c in r.disk], "dump": dump, "n": r.ncommitted()})
+        n = r.ncommitted()
+        os.replace(self.ref_path(r) + ".pending", self.ref_snapshot_path(r, n))
+        r.commits.append({"files": [c["file"] for c in r.disk], "dump": r.inflight["dump"], "n": n})
+        r.inflight = None
         self.protect(r)
+        self.save_carry()
         self.containers_seen = max(self.containers_seen, len(r.disk))
         if r.cls == "mf":
-            self.check_manifest(r)
+            if opened:
+                self.check_manifest(r)
+            else:
+                self.check_manifest_closed(r)
         self.check_merge_descendants(r)
+
+    # -------------------------------------------------------------- carry (crash epochs)
+
+    def save_carry(self):
+        if not self.cfg.get("carry"):
+            return
+        out = {}
+        for i, r in self.recs.items():
+            out[str(i)] = {
+                "name": r.name,
+                "cls": r.cls,
+                "disk": r.disk,
+                "commits": r.commits,
+                "protected": {os.path.basename(k): v for k, v in r.protected.items()},
+                "gen": r.gen,
+                "exts": r.exts,
+                "inflight": r.inflight,
+                "merged_from": r.merged_from,
+                "truncating": r.truncating,
+            }
+        p = os.path.join(self.scratch, "carry.json")
+        with open(p + ".tmp", "w") as f:
+            json.dump(out, f)
+        os.replace(p + ".tmp", p)
+
+    def load_carry(self):
+        p = os.path.join(self.scratch, "carry.json")
+        if not os.path.exists(p):
+            return
+        with open(p) as f:
+            data = json.load(f)
+        for i, d in data.items():
+            r = self.rec(int(i))
+            r.cls = d["cls"]
+            r.disk = d["disk"]
+            r.commits = d["commits"]
+            r.protected = {os.path.join(self.sut, k): v for k, v in d["protected"].items()}
+            r.gen = d["gen"]
+            r.exts = d["exts"]
+            r.inflight = d["inflight"]
+            r.merged_from = d["merged_from"]
+            r.truncating = d.get("truncating", False)
 
     def check_manifest(self, r):
         """C10 (shared): manifest on disk matches hash+uuid in the user block; skeleton current."""
@@ -441,6 +511,10 @@ class World:
                 expect = {"r": "open", "r+": "open", "a": "open", "w": "truncate", "w-": "raise", "x": "raise"}[mode]
         if expect == "truncate":
             self.unprotect_all(r)
+            r.commits = []
+            r.inflight = None
+            r.truncating = True
+            self.save_carry()
         arg = None
         if by == "list":
             files = self.abspaths(r)
@@ -464,6 +538,7 @@ class World:
             obj, ok, exc = None, False, e
         finally:
             self._perm_state = None
+        r.truncating = False
         after = self.listing()
         sit = self.situation_before(was_present, last_committed, r)
         if expect == "raise":
@@ -576,9 +651,8 @@ class World:
             return "skip"
         commit = bool(op.get("commit", True))
         will_commit = commit and r.writable
-        before_dump, _ = V.dump_tree(r.ref)
-        if op.get("exts") is not None and r.cls == "mf" and will_commit:
-            pass
+        if will_commit:
+            self.pre_commit(r)
         try:
             r.obj.close(commit=commit)
         except SimRunaway:
@@ -589,15 +663,7 @@ class World:
         obj = r.obj
         r.obj = None
         if will_commit:
-            r.disk[-1]["committed"] = True
-            self.snapshot_ref(r)
-            dump, _ = V.dump_tree(r.ref)
-            r.commits.append({"files": [c["file"] for c in r.disk], "dump": dump, "n": r.ncommitted()})
-            self.protect(r)
-            self.containers_seen = max(self.containers_seen, len(r.disk))
-            if r.cls == "mf":
-                self.check_manifest_closed(r)
-            self.check_merge_descendants(r)
+            self.post_commit(r, opened=False)
         r.ref.flush()
         # closed object must refuse use
         try:
@@ -638,6 +704,8 @@ class World:
         kwargs = {}
         if r.cls == "mf" and op.get("exts") is not None:
             kwargs["manifest_exts"] = op["exts"]
+        if expect_ok:
+            self.pre_commit(r)
         try:
             r.obj.commit_patch(**kwargs)
             ok, exc = True, None
@@ -645,13 +713,15 @@ class World:
             raise
         except Exception as e:
             ok, exc = False, e
+        if expect_ok and not ok:
+            self.abort_commit(r)
         if ok != expect_ok:
             raise Violation("C03", "commit-outcome", f"commit_patch {'succeeded' if ok else 'raised ' + type(exc).__name__ + ': ' + str(exc)} (mode {'r' if r.ro else 'r+'}, writable container: {expect_ok})")
         if ok:
             self.count_fault("boundary")
             if "manifest_exts" in kwargs:
                 r.exts = kwargs["manifest_exts"]
-            self.record_commit(r)
+            self.post_commit(r)
             if r.obj._has_writable:
                 raise Violation("C03", "commit-state", "record still has a writable container after commit_patch")
             return "ok"
@@ -729,6 +799,9 @@ class World:
         mf_before = r.obj.manifest.json() if (r.cls == "mf" and r.obj._manifest is not None) else None
         from pathlib import Path
 
+        if not t.exists:
+            t.truncating = True  # target files are in the making: nothing is promised about them
+            self.save_carry()
         try:
             res = r.obj.merge_files(Path(self.path(t)))
             ok, exc = True, None
@@ -736,6 +809,7 @@ class World:
             raise
         except Exception as e:
             ok, exc = False, e
+        t.truncating = False
         after = self.listing()
         self.count_fault("merge")
         if uncommitted and ok:
@@ -970,6 +1044,7 @@ class World:
         if k != "open":
             pass
         self.check_protected(f"op {i} {k}")
+        self.save_carry()
         if k in LIFE_OPS:
             self.check_list_records()
             for r in self.recs.values():
@@ -1051,7 +1126,7 @@ class IH5StoreEngine:
             s = st[i]
             if mode is None:
                 if not s["exists"]:
-                    mode = g.choice(["w", "a", "x", "w-"])
+                    mode = g.choice(["w", "a", "x", "w-"] if profile != "restart" else MODES)
                 else:
                     mode = g.choice(["r+", "a", "r+", "a", "r"] if profile != "restart" else MODES)
             op = {"op": "open", "rec": i, "mode": mode, "by": by or ("list" if s["exists"] and g.random() < 0.35 else "name")}
